@@ -94,6 +94,7 @@ def register(base, key, props, cfgs, modes=('file',), **attrs):
 
 
 class LoaderContract(Contract):
+    exact_result = True          # result() is the exact functional postcondition; post() is checked when verifying
     layout = 'default'
     two_d = False
     preload = False
@@ -126,6 +127,23 @@ class LoaderContract(Contract):
 def no_swallowed(c, label='pool.no_exception_swallowed'):
     """every exception raised inside a pool task has surfaced (C17: failures are reported)"""
     c.ensure(mk_bool(len(c.ghost.get('swallowed', [])) == 0), label, kind='ghost')
+
+
+def spec_array(shp, fn):
+    """array value of a loader result at call sites: shape + pointwise spec"""
+    return SArray(tuple(shp), lambda idx: fn(*idx), 'float32')
+
+
+def log_unless_preloaded(c, a, off, n, extra=()):
+    if F(a['self'], 'compressed_volume') is None:
+        IO.log_read(c, BM.K_FILE, off, n, extra_loopvars=list(extra))
+
+
+def fresh_index(c, n, base):
+    k = c.fresh_int(base)
+    c.assume_raw(z3.And(k >= 0, k < zint(n)))
+    c.nonneg_ids.add(k.get_id())
+    return k
 
 
 def check_array(c, result, shp):
@@ -187,6 +205,16 @@ register(GetCompressedBytes, 'loader.py::SgzLoader._get_compressed_bytes', ['C02
 
 class IlSet(LoaderContract):
     layout = 'default'
+    modular_use = True
+
+    def result(self, c, a):
+        g = geo_of(a)
+        return spec_array((4, g.P[1], g.P[2]), lambda e0, e1, e2: O.Vpad(g, add(a['i'], e0), e1, e2))
+
+    def effects(self, c, a, result):
+        g = geo_of(a)
+        per = mul(g.G[1], g.G[2])
+        log_unless_preloaded(c, a, self.data_off(g, mul(fdiv(a['i'], 4), per)), mul(BLK, per))
 
     def inputs(self, c):
         g, ld = self.base_inputs(c)
@@ -217,6 +245,18 @@ register(IlSet, 'loader.py::SgzLoader3d.read_and_decompress_il_set', ['C02', 'C0
 
 class XlSet(LoaderContract):
     layout = 'default'
+    modular_use = True
+
+    def result(self, c, a):
+        g = geo_of(a)
+        return spec_array((g.P[0], 4, g.P[2]), lambda e0, e1, e2: O.Vpad(g, e0, add(a['x'], e1), e2))
+
+    def effects(self, c, a, result):
+        g = geo_of(a)
+        if F(a['self'], 'compressed_volume') is None:
+            k = fresh_index(c, g.G[0], 'xl_k')
+            IO.log_read(c, BM.K_FILE, self.data_off(g, mul(add(mul(SInt(k), g.G[1]), fdiv(a['x'], 4)), g.G[2])), mul(BLK, g.G[2]),
+                        extra_loopvars=[(k, g.G[0])])
     loops = {1: L.IndependentWrites(witness=lambda q, env: fdiv(q, F(env['self'], 'chunk_bytes')))}
 
     def inputs(self, c):
@@ -250,6 +290,20 @@ register(XlSet, 'loader.py::SgzLoader3d.read_and_decompress_xl_set', ['C02', 'C0
 
 class ZsliceSet(LoaderContract):
     layout = 'default'
+    modular_use = True
+
+    def result(self, c, a):
+        g = geo_of(a)
+        zbase = mul(4, fdiv(a['zslice_id'], 4))
+        return spec_array((g.P[0], g.P[1], 4), lambda e0, e1, e2: O.Vpad(g, e0, e1, add(zbase, e2)))
+
+    def effects(self, c, a, result):
+        g = geo_of(a)
+        if F(a['self'], 'compressed_volume') is None:
+            ki = fresh_index(c, g.G[0], 'zs_i')
+            kx = fresh_index(c, g.G[1], 'zs_x')
+            IO.log_read(c, BM.K_FILE, add(g.data_start, O.spec_off(g, SInt(ki), SInt(kx), fdiv(a['zslice_id'], 4))), g.ub,
+                        extra_loopvars=[(ki, g.G[0]), (kx, g.G[1])])
     loops = {1: L.IndependentWrites(witness=lambda q, env: fdiv(q, F(env['self'], 'unit_bytes')))}
 
     def inputs(self, c):
@@ -260,7 +314,11 @@ class ZsliceSet(LoaderContract):
     def pre(self, c, a):
         g = geo_of(a)
         # established by the caller (read_zslice): 0 <= zslice_id < n_samples <= P2, blocks_per_dim = shape_pad // blockshape
-        return [ge(a['zslice_id'], 0), lt(a['zslice_id'], g.P[2])]
+        bpd = a['blocks_per_dim']
+        return [ge(a['zslice_id'], 0), lt(a['zslice_id'], g.P[2]),
+                mk_bool(isinstance(bpd, tuple) and len(bpd) == 3),
+                And(*[eq(x, y) for x, y in zip(bpd, g.G)]) if isinstance(bpd, tuple) and len(bpd) == 3 else False,
+                eq(a['zslice_first_block_offset'], fdiv(a['zslice_id'], g.b[2]))]
 
     def post(self, c, a, result):
         g = geo_of(a)
@@ -377,6 +435,26 @@ register(ReadChunkRange, RCR, ['C02', 'C07', 'C10'], CFG_DEFAULT, modes=('file',
 class ChunkRange(LoaderContract):
     layout = 'default'
     multithreading = True
+    modular_use = True
+
+    def _units(self, a):
+        return [sub(fdiv(add(a[hi], 3), 4), fdiv(a[lo], 4)) for lo, hi in (('min_il', 'max_il'), ('min_xl', 'max_xl'), ('min_z', 'max_z'))]
+
+    def result(self, c, a):
+        g = geo_of(a)
+        units = self._units(a)
+        base = [mul(4, fdiv(a[lo], 4)) for lo in ('min_il', 'min_xl', 'min_z')]
+        return spec_array(tuple(mul(4, u) for u in units),
+                          lambda e0, e1, e2: O.Vpad(g, add(base[0], e0), add(base[1], e1), add(base[2], e2)))
+
+    def effects(self, c, a, result):
+        g = geo_of(a)
+        if F(a['self'], 'compressed_volume') is None:
+            units = self._units(a)
+            ki = fresh_index(c, units[0], 'cr_i')
+            kx = fresh_index(c, units[1], 'cr_x')
+            IO.log_read(c, BM.K_FILE, add(g.data_start, O.spec_off(g, add(fdiv(a['min_il'], 4), SInt(ki)), add(fdiv(a['min_xl'], 4), SInt(kx)), fdiv(a['min_z'], 4))),
+                        mul(g.ub, units[2]), extra_loopvars=[(ki, units[0]), (kx, units[1])])
     loops = {1: L.IndependentWrites(witness=lambda idx, env: fdiv(idx[0], 4))}
     NAMES = ('max_il', 'max_xl', 'max_z', 'min_il', 'min_xl', 'min_z')
 
@@ -444,6 +522,21 @@ def _adv_sub(q, env):
 
 class ZsliceSetAdv(LoaderContract):
     layout = 'zslice'
+    modular_use = True
+
+    def result(self, c, a):
+        g = geo_of(a)
+        zbase = mul(4, a['zslice_first_block_offset'])
+        return spec_array((g.P[0], g.P[1], 4), lambda e0, e1, e2: O.Vpad(g, e0, e1, add(zbase, e2)))
+
+    def effects(self, c, a, result):
+        g = geo_of(a)
+        if F(a['self'], 'compressed_volume') is None:
+            ki = fresh_index(c, g.G[0], 'za_i')
+            kx = fresh_index(c, g.G[1], 'za_x')
+            IO.log_read(c, BM.K_FILE, self.data_off(g, add(mul(add(mul(SInt(ki), g.G[1]), SInt(kx)), g.G[2]), a['zslice_first_block_offset'])), BLK,
+                        extra_loopvars=[(ki, g.G[0]), (kx, g.G[1])])
+
     # the loop over block_id in range(G0*G1) is a flattened double loop: generic index (bi, bx) with block_id = bi*G1 + bx
     loops = {1: L.IndependentWrites(witness=lambda q, env: (_adv_bi(q, env), _adv_bx(q, env)),
                                     decompose=lambda env: (env['blocks_per_dim'][0], env['blocks_per_dim'][1])),
@@ -456,7 +549,10 @@ class ZsliceSetAdv(LoaderContract):
 
     def pre(self, c, a):
         g = geo_of(a)
-        return [ge(a['zslice_first_block_offset'], 0), lt(a['zslice_first_block_offset'], g.G[2])]
+        bpd = a['blocks_per_dim']
+        return [ge(a['zslice_first_block_offset'], 0), lt(a['zslice_first_block_offset'], g.G[2]),
+                mk_bool(isinstance(bpd, tuple) and len(bpd) == 3),
+                And(*[eq(x, y) for x, y in zip(bpd, g.G)]) if isinstance(bpd, tuple) and len(bpd) == 3 else False]
 
     def post(self, c, a, result):
         g = geo_of(a)
@@ -483,6 +579,30 @@ register(ZsliceSetAdv, 'loader.py::SgzLoader3d.read_and_decompress_zslice_set_ad
 
 class Unshuffle(LoaderContract):
     layout = 'general'
+    modular_use = True
+
+    def _blocks(self, g, a):
+        pairs = (('min_il', 'max_il'), ('min_xl', 'max_xl'), ('min_z', 'max_z'))
+        return [sub(fdiv(add(a[hi], g.b[k] - 1), g.b[k]), fdiv(a[lo], g.b[k])) for k, (lo, hi) in enumerate(pairs)]
+
+    def result(self, c, a):
+        g = geo_of(a)
+        blocks = self._blocks(g, a)
+        base = [mul(g.b[k], fdiv(a[lo], g.b[k])) for k, lo in enumerate(('min_il', 'min_xl', 'min_z'))]
+        return spec_array(tuple(mul(g.b[k], blocks[k]) for k in range(3)),
+                          lambda e0, e1, e2: O.Vpad(g, add(base[0], e0), add(base[1], e1), add(base[2], e2)))
+
+    def effects(self, c, a, result):
+        g = geo_of(a)
+        if F(a['self'], 'compressed_volume') is None:
+            blocks = self._blocks(g, a)
+            ks = [fresh_index(c, blocks[k], f'us_{k}') for k in range(3)]
+            bi = add(fdiv(a['min_il'], g.b[0]), SInt(ks[0]))
+            bx = add(fdiv(a['min_xl'], g.b[1]), SInt(ks[1]))
+            bz = add(fdiv(a['min_z'], g.b[2]), SInt(ks[2]))
+            IO.log_read(c, BM.K_FILE, self.data_off(g, add(mul(add(mul(bi, g.G[1]), bx), g.G[2]), bz)), BLK,
+                        extra_loopvars=[(ks[k], blocks[k]) for k in range(3)])
+
     loops = {1: L.IndependentWrites(witness=lambda idx, env: fdiv(idx[0], F(env['self'], 'blockshape')[0])),
              2: L.IndependentWrites(witness=lambda idx, env: fdiv(idx[1], F(env['self'], 'blockshape')[1])),
              3: L.IndependentWrites(witness=lambda idx, env: fdiv(idx[2], F(env['self'], 'blockshape')[2]))}
@@ -521,3 +641,114 @@ class Unshuffle(LoaderContract):
 
 
 register(Unshuffle, 'loader.py::SgzLoader3d.read_unshuffle_and_decompress_chunk_range', ['C02', 'C07'], CFG_GENERAL, modes=('file', 'preload'))
+
+
+# ---------------------------------------------------------------------------------------------
+# 2-D loaders
+
+class TraceRange2d(LoaderContract):
+    """(1,4,M) layout: one group of 4 traces = the G2 blocks of that group, fetched in one read"""
+    layout = 'default'
+    two_d = True
+    modular_use = True
+
+    def result(self, c, a):
+        g = geo_of(a)
+        return spec_array((g.b[1], g.P[2]), lambda e0, e1: O.Vpad(g, 0, add(a['min_id'], e0), e1))
+
+    def effects(self, c, a, result):
+        g = geo_of(a)
+        log_unless_preloaded(c, a, self.data_off(g, mul(fdiv(a['min_id'], g.b[1]), g.G[2])), mul(BLK, g.G[2]))
+
+    def inputs(self, c):
+        g, ld = self.base_inputs(c)
+        mn = c.sym_int('min_id', name='min_id')
+        return dict(self=ld, min_id=mn, max_id=add(mn, g.b[1]), _g=g)
+
+    def pre(self, c, a):
+        g = geo_of(a)
+        return [ge(a['min_id'], 0), lt(a['min_id'], g.P[1]), eq(mod(a['min_id'], g.b[1]), 0), eq(a['max_id'], add(a['min_id'], g.b[1]))]
+
+    def post(self, c, a, result):
+        g = geo_of(a)
+        shp = (g.b[1], g.P[2])
+        check_array(c, result, shp)
+        e = O.skolem_index(c, shp)
+        c.ensure(result.fn(e) == O.Vpad(g, 0, add(a['min_id'], e[0]), e[1]), 'elem')
+        self.ghost_common(c, g)
+        if not self.preload:
+            GH.require_read_count(c, 1, 'reads.one_range')
+            ev = GH.reads(c)[0]
+            grp = fdiv(a['min_id'], g.b[1])
+            c.ensure(And(eq(ev.off, self.data_off(g, mul(grp, g.G[2]))), eq(ev.n, mul(BLK, g.G[2]))),
+                     'reads.exactly_the_blocks_of_the_trace_group', kind='ghost')
+
+
+register(TraceRange2d, 'loader.py::SgzLoader2d.read_and_decompress_trace_range', ['C02', 'C07', 'C09'], CFG_2D_DEFAULT, modes=('file', 'preload'))
+
+
+class ChunkRange2d(LoaderContract):
+    layout = 'general'
+    two_d = True
+    modular_use = True
+
+    def _blocks(self, g, a):
+        pairs = ((1, ('min_id', 'max_id')), (2, ('min_z', 'max_z')))
+        return [sub(fdiv(add(a[hi], g.b[k] - 1), g.b[k]), fdiv(a[lo], g.b[k])) for k, (lo, hi) in pairs]
+
+    def result(self, c, a):
+        g = geo_of(a)
+        blocks = self._blocks(g, a)
+        base = [mul(g.b[1], fdiv(a['min_id'], g.b[1])), mul(g.b[2], fdiv(a['min_z'], g.b[2]))]
+        return spec_array((mul(g.b[1], blocks[0]), mul(g.b[2], blocks[1])),
+                          lambda e0, e1: O.Vpad(g, 0, add(base[0], e0), add(base[1], e1)))
+
+    def effects(self, c, a, result):
+        g = geo_of(a)
+        if F(a['self'], 'compressed_volume') is None:
+            blocks = self._blocks(g, a)
+            kx = fresh_index(c, blocks[0], 'c2_x')
+            kz = fresh_index(c, blocks[1], 'c2_z')
+            bx = add(fdiv(a['min_id'], g.b[1]), SInt(kx))
+            bz = add(fdiv(a['min_z'], g.b[2]), SInt(kz))
+            IO.log_read(c, BM.K_FILE, self.data_off(g, add(mul(bx, g.G[2]), bz)), BLK, extra_loopvars=[(kx, blocks[0]), (kz, blocks[1])])
+    loops = {1: L.IndependentWrites(witness=lambda idx, env: fdiv(idx[0], F(env['self'], 'blockshape')[1])),
+             2: L.IndependentWrites(witness=lambda idx, env: fdiv(idx[1], F(env['self'], 'blockshape')[2]))}
+
+    def inputs(self, c):
+        g, ld = self.base_inputs(c)
+        d = dict(self=ld, _g=g)
+        for nm in ('max_id', 'max_z', 'min_id', 'min_z'):
+            d[nm] = c.sym_int(nm, name=nm)
+        return d
+
+    def pre(self, c, a):
+        g = geo_of(a)
+        out = []
+        for k, (lo, hi) in ((1, ('min_id', 'max_id')), (2, ('min_z', 'max_z'))):
+            out += [ge(a[lo], 0), lt(a[lo], a[hi]), le(a[hi], g.P[k])]
+        return out
+
+    def post(self, c, a, result):
+        g = geo_of(a)
+        pairs = ((1, ('min_id', 'max_id')), (2, ('min_z', 'max_z')))
+        blocks = [sub(fdiv(add(a[hi], g.b[k] - 1), g.b[k]), fdiv(a[lo], g.b[k])) for k, (lo, hi) in pairs]
+        shp = (mul(g.b[1], blocks[0]), mul(g.b[2], blocks[1]))
+        check_array(c, result, shp)
+        e = O.skolem_index(c, shp)
+        base = [mul(g.b[k], fdiv(a[lo], g.b[k])) for k, (lo, hi) in pairs]
+        c.ensure(result.fn(e) == O.Vpad(g, 0, add(base[0], e[0]), add(base[1], e[1])), 'elem')
+        self.ghost_common(c, g)
+        if not self.preload:
+            GH.require_read_count(c, 1, 'reads.one_family')
+            ev = GH.reads(c)[0]
+
+            def blk(kx, kz):
+                bx = add(fdiv(a['min_id'], g.b[1]), kx)
+                bz = add(fdiv(a['min_z'], g.b[2]), kz)
+                return self.data_off(g, add(mul(bx, g.G[2]), bz))
+            self.family_exact(c, ev, blk, BLK, 'reads.exactly_the_blocks_of_the_window')
+            c.ensure(And(*[eq(ev.loopvars[k][1], blocks[k]) for k in range(2)]), 'reads.one_per_block_of_the_window', kind='ghost')
+
+
+register(ChunkRange2d, 'loader.py::SgzLoader2d.read_unshuffle_and_decompress_chunk_range_2d', ['C02', 'C07', 'C09'], ALL2, modes=('file', 'preload'))
